@@ -162,7 +162,7 @@ def run_history(job):
             arr = lambda t: [t.get(n, 0) for n in names]
             earr = lambda e: [hexes.get(e[n], -2) if n in e else 0 for n in names]
             recs.append({"seed": seed, "step": step, "names": names, "fam": fam, "A": arr(a0), "B": arr(b0), "E": earr(e0), "tr": tr0, "stg": stg,
-                         "last": arr(last), "A2": arr(a1), "B2": arr(b1), "E2": earr(e1), "tr2": tr1, "exit": p.returncode,
+                         "last": arr(last), "A2": arr(a1), "B2": arr(b1), "altA2": arr(a1), "altB2": arr(b1), "E2": earr(e1), "tr2": tr1, "exit": p.returncode,
                          "completed": completed, "nplan": int(m.group(1)) if m else -1, "stderr": p.stderr.decode("utf8", "replace")[-160:] if not completed else ""})
             if completed:
                 last = {n: a1[n] for n in a1 if b1.get(n) == a1[n]}
@@ -200,8 +200,56 @@ def pair_identity(job):
     arr = lambda t: [t.get(n, 0) for n in names]
     completed = p2.returncode == 0 or (p2.returncode == 1 and b"had conflicts" in p2.stderr)
     return [{"seed": f"pair-identity-{k}", "step": 0, "names": names, "fam": fam, "A": arr(a0), "B": arr(b0), "E": [0] * len(names), "tr": False, "stg": False,
-             "last": [0] * len(names), "A2": arr(a1), "B2": arr(b1), "E2": arr(a1) if completed else [0] * len(names), "tr2": completed, "exit": p2.returncode,
+             "last": [0] * len(names), "A2": arr(a1), "B2": arr(b1), "altA2": arr(a1), "altB2": arr(b1), "E2": arr(a1) if completed else [0] * len(names), "tr2": completed, "exit": p2.returncode,
              "completed": completed, "nplan": -1, "stderr": (repr(n1) + " vs " + repr(n2) + " banner=" + str(b"SAFE no-base" in p2.stderr))}]
+
+
+def tie_order(job):
+    """C06 'swapping which directory is named first does not change which bytes end up at which path', at its hardest:
+    the two versions have the SAME BLAKE3 and differ in entry type only - a regular file holding the text T on one side,
+    a symbolic link with target T on the other.  Version 1 = the file, version 2 = the link.  The same start state is
+    run once as (X, Y) and once, in a second sandbox, as (Y, X)."""
+    k, _ = job
+    with_base, file_on_x = bool(k & 1), bool(k & 2)
+    d = os.path.join(CFG["dir"], f"tie{k}")
+    shutil.rmtree(d, ignore_errors=True)
+    target = CFG["link_target"]
+
+    def kind(p):
+        if os.path.islink(p):
+            return 2 if os.readlink(p) == target else -1
+        return {target.encode(): 1, CONTENT[1]: 3}.get(open(p, "rb").read(), -1)
+
+    def tree2(root):
+        return {os.path.relpath(os.path.join(dp, f), root): kind(os.path.join(dp, f)) for dp, dn, fn in os.walk(root) for f in fn}
+    res = []
+    for order in ("XY", "YX"):
+        sb = os.path.join(d, order)
+        X, Y, home = os.path.join(sb, "X"), os.path.join(sb, "Y"), os.path.join(sb, "home")
+        for x in (X, Y, home):
+            os.makedirs(x)
+        args = [X, Y] if order == "XY" else [Y, X]
+        if with_base:
+            for side in (X, Y):
+                open(os.path.join(side, "f"), "wb").write(CONTENT[1])
+            subprocess.run([CFG["copia"], "bisync"] + args, env=_env(home), stdout=subprocess.PIPE, stderr=subprocess.PIPE, timeout=60)
+            for side in (X, Y):
+                os.unlink(os.path.join(side, "f"))
+        fs, ls = (X, Y) if file_on_x else (Y, X)
+        open(os.path.join(fs, "f"), "wb").write(target.encode())
+        os.symlink(target, os.path.join(ls, "f"))
+        x0, y0 = tree2(X), tree2(Y)
+        p = subprocess.run([CFG["copia"], "bisync"] + args, env=_env(home), stdout=subprocess.PIPE, stderr=subprocess.PIPE, timeout=60)
+        res.append((x0, y0, tree2(X), tree2(Y), p))
+    (x0, y0, x1, y1, p), (_, _, x1s, y1s, ps) = res
+    names = sorted(set(x0) | set(y0) | set(x1) | set(y1) | set(x1s) | set(y1s))
+    fam = [[j + 1 for j, m2 in enumerate(names) if m2 == n or m2.startswith(n + ".conflict-")] for n in names]
+    arr = lambda t: [t.get(n, 0) for n in names]
+    completed = p.returncode == 0 or (p.returncode == 1 and b"had conflicts" in p.stderr)
+    return [{"seed": f"hash-tie-order-{k}", "step": 0, "names": names, "fam": fam, "A": arr(x0), "B": arr(y0), "E": [0] * len(names), "tr": False, "stg": False,
+             "last": [0] * len(names), "A2": arr(x1), "B2": arr(y1), "altA2": arr(x1s), "altB2": arr(y1s), "E2": arr(x1) if completed else [0] * len(names),
+             "tr2": completed, "exit": p.returncode, "completed": completed, "nplan": -1,
+             "stderr": f"with_base={with_base} file_on_x={file_on_x} exits={p.returncode},{ps.returncode}"}]
 
 
 def _decodable(b):
@@ -229,4 +277,7 @@ def run_all(copia, root, jobs, nproc=12, pairs=False, link_target=None):
         if pairs:
             for r in pool.imap_unordered(pair_identity, [(k, None) for k in range(len(PAIR_NAMES))]):
                 out.extend(r)
+            if link_target:
+                for r in pool.imap_unordered(tie_order, [(k, None) for k in range(4)]):
+                    out.extend(r)
     return out
